@@ -97,7 +97,7 @@ func genField(rng *rand.Rand, big bool) string {
 }
 
 func cookieArm(r *mon.Run) {
-	n := r.N(3000, 40000)
+	n := r.N(3000, 60000)
 	var wg sync.WaitGroup
 	sem := make(chan struct{}, 16)
 	type res struct {
@@ -371,7 +371,7 @@ func disagreement(v locVerdict) string {
 }
 
 func returnToArm(r *mon.Run) {
-	n := r.N(100000, 1000000)
+	n := r.N(100000, 1500000)
 	for ci, cfg := range allowConfigs {
 		m := map[string]bool{defaultOrigin: true}
 		for _, e := range cfg {
@@ -435,7 +435,7 @@ var hostileQueryParts = []string{
 }
 
 func originalURLArm(r *mon.Run) {
-	n := r.N(20000, 300000)
+	n := r.N(20000, 400000)
 	prefixes := []string{"", "/vgi", "/a/b"}
 	rng := r.Rand(3)
 	unreachableWeak := 0
@@ -692,7 +692,7 @@ type flowViol struct {
 
 func flowArm(r *mon.Run) {
 	nDep := r.N(4, 8)
-	perDep := r.N(800, 2500)
+	perDep := r.N(800, 4000)
 	var viols []flowViol
 	var vmu sync.Mutex
 	for di := 0; di < nDep; di++ {
